@@ -5,6 +5,7 @@ import (
 	"bytes"
 	"crypto/sha256"
 	"encoding/hex"
+	"errors"
 	"fmt"
 	"io"
 	"math/rand/v2"
@@ -419,8 +420,35 @@ func c19CheckSet(c *mon.Ctx, id string, item int, cs c19SetCase) {
 				if pi < 2 {
 					rm = mode + pi
 				}
-				got, err := dirhash.Hash1(in, c19Opener(set, rm, nil))
+				// a caller that keeps contents in a slice parallel to the list it passes (positional lookup):
+				// the listing it handed over must still be in its own order when open is called
+				var got string
+				var err error
+				if pi%2 == 1 {
+					byPos := make([][]byte, len(in))
+					for i, n := range p {
+						for _, f := range set {
+							if f.Name == n {
+								byPos[i] = f.Data
+							}
+						}
+					}
+					got, err = dirhash.Hash1(in, func(name string) (io.ReadCloser, error) {
+						for i, n := range in {
+							if n == name {
+								return io.NopCloser(bytes.NewReader(byPos[i])), nil
+							}
+						}
+						return nil, fmt.Errorf("harness: %q not in the list", name)
+					})
+				} else {
+					got, err = dirhash.Hash1(in, c19Opener(set, rm, nil))
+				}
 				c.Eval(1)
+				if !slices.Equal(in, p) {
+					viol("hash1-modified-the-callers-list", map[string]any{"files": c19Describe(set), "order_before": fmt.Sprintf("%q", p), "order_after": fmt.Sprintf("%q", in)})
+					return
+				}
 				if err != nil || got != want {
 					viol("hash1-not-the-documented-formula", map[string]any{"files": c19Describe(set), "order": fmt.Sprintf("%q", p), "got": got, "err": c19ErrStr(err), "want": want, "summary": mon.Q(wantSummary)})
 					return
@@ -431,6 +459,33 @@ func c19CheckSet(c *mon.Ctx, id string, item int, cs c19SetCase) {
 					viol("hash1-depends-on-listing-order", map[string]any{"files": c19Describe(set), "order": fmt.Sprintf("%q", p), "got": got, "first": got0})
 					return
 				}
+			}
+			// a read error after a successful open must surface as an error, never as the hash of the
+			// truncated content
+			if len(set) > 0 {
+				victim := set[item%len(set)]
+				cut := 0
+				if len(victim.Data) > 0 {
+					cut = (item * 7) % (len(victim.Data) + 1)
+				}
+				faulty := func(name string) (io.ReadCloser, error) {
+					for _, f := range set {
+						if f.Name == name {
+							if name == victim.Name {
+								return io.NopCloser(io.MultiReader(bytes.NewReader(f.Data[:cut]), iotest.ErrReader(errors.New("injected read fault")))), nil
+							}
+							return io.NopCloser(bytes.NewReader(f.Data)), nil
+						}
+					}
+					return nil, fmt.Errorf("harness: %q not in the list", name)
+				}
+				got, err := dirhash.Hash1(c19Names(set), faulty)
+				c.Eval(1)
+				if err == nil {
+					viol("hash-returned-despite-read-error", map[string]any{"files": c19Describe(set), "failing_file": mon.QS(victim.Name), "bytes_before_fault": cut, "got": got})
+					return
+				}
+				c.Class("read-fault:error-propagated")
 			}
 			switch {
 			case len(set) == 0:
